@@ -136,6 +136,7 @@ PROPS = {
         "units": [
             R("h26", "c04", "TestC04_Random", (4000, 8, 1500), (400000, 16, 10000)),
             E("h26", "c04", "TestC04_Exhaustive", (8, 1500), (16, 10000)),
+            R("h26", "c04", "TestC04_QueuedAnnounce", (1200, 8, 600), (100000, 16, 10000)),
         ],
     },
     "C06": {
